@@ -593,6 +593,22 @@ pub fn build_synth(seed: u64) -> Option<SynthArena> {
         arena.write(b, &code);
         slots.push((a, 0x2013, false));
     }
+    // a function that starts with a CET landing pad: endbr64 ; mov eax, id ; ret
+    {
+        let a = base + PAGE + 0x180;
+        let mut code = vec![0xF3, 0x0F, 0x1E, 0xFA, 0xB8];
+        code.extend_from_slice(&0x2300u32.to_le_bytes());
+        code.push(0xC3);
+        while code.len() < 16 {
+            code.push(rng.below(256) as u8);
+        }
+        arena.write(a, &code);
+        slots.push((a, 0x2300, false));
+        // and a very short one: xor eax,eax ; ret (3 bytes) followed by int3 up to the next slot
+        let b = base + PAGE + 0x1a0;
+        arena.write(b, &[0x31, 0xC0, 0xC3]);
+        slots.push((b, 0, false));
+    }
     // last 16 bytes of the mapping
     put!(base + 2 * PAGE - 16, 0x2200, false, 16, &mut rng);
     // first bytes of the mapping
